@@ -127,6 +127,7 @@ class NDCubeSequenceBase:
         if isinstance(item, slice):
             result.data = self.data[item]
         else:
+            item = self._expand_ellipsis(tuple(item))
             if isinstance(item[0], numbers.Integral):
                 result = self.data[item[0]][item[1:]]
             else:
@@ -141,6 +142,25 @@ class NDCubeSequenceBase:
                     result._common_axis = \
                         self._common_axis - sum(drop_cube_axes[:self._common_axis])
         return result
+
+    def _expand_ellipsis(self, item):
+        """
+        Replace an Ellipsis in a tuple item by the whole-axis slices it stands for.
+
+        The item is interpreted relative to the sequence axis plus the cube axes.
+        """
+        is_ellipsis = [i is Ellipsis for i in item]
+        n_ellipsis = sum(is_ellipsis)
+        if n_ellipsis == 0:
+            return item
+        if n_ellipsis > 1:
+            raise IndexError("an index can only have a single ellipsis ('...')")
+        n_axes = 1 + (len(self.data[0].shape) if len(self.data) > 0 else 0)
+        n_fill = n_axes - (len(item) - 1)
+        if n_fill < 0:
+            raise IndexError("too many indices for sequence")
+        idx = is_ellipsis.index(True)
+        return item[:idx] + (slice(None),) * n_fill + item[idx + 1:]
 
     @property
     def index_as_cube(self):
@@ -232,9 +252,10 @@ class NDCubeSequenceBase:
         result_cubes = []
         # All slices are initially initialised as slice(None, None, None)
         result_cubes_slice = [slice(None, None, None)] * len(self[0].data.shape)
-        # the range of the axis that needs to be sliced
-        range_of_axis = self[0].data.shape[axis]
         for ndcube in self.data:
+            # the range of the axis that needs to be sliced; this can differ
+            # between cubes along the common axis.
+            range_of_axis = ndcube.data.shape[axis]
             for index in range(range_of_axis):
                 # setting the slice value to the index so that the slices are done correctly.
                 result_cubes_slice[axis] = index
